@@ -193,6 +193,15 @@ impl Execution {
 
         let path_id = self.path.pos();
 
+        if self.path.is_full() {
+            // `branch_thread` is going to panic in the active thread, which may
+            // already be marked as blocked by the operation it is performing.
+            // Keep it runnable while it unwinds: operations performed by
+            // destructors (e.g. dropping an `Arc`) would otherwise switch away
+            // from it for good and the limit would be reported as a deadlock.
+            self.threads.active_mut().set_runnable();
+        }
+
         let next = self.path.branch_thread(self.id, {
             self.threads.iter().map(|(i, th)| {
                 if initial.is_none() && th.is_runnable() {
